@@ -211,3 +211,37 @@ Proof. induction n as [|k IH]; intros N Z HN HZ PN PZ.
       * replace (qf (S k) N (pivcol k Z) / Z k k) with (qf (S k) N (pivcol k Z) * (1 / Z k k)) by (field; exact Ha).
         apply k_mul; [apply PN|now apply inv_nonneg]. Qed.
 End Psd.
+
+(* Executable variant: every Schur complement is materialised (function-matrices recompute their
+   entries on each access, which is exponential in the recursion depth). Proved equal to [psd_dec]. *)
+Section PsdFast.
+Context (F : OF).
+Notation mat := (@Mat.mat F).
+Variable frz : nat -> mat -> mat.
+Hypothesis frz_spec : forall n M i j, (i < n)%nat -> (j < n)%nat -> frz n M i j = M i j.
+
+Lemma allzero_ext k f g : (forall i, (i < k)%nat -> f i = g i) -> allzero F k f = allzero F k g.
+Proof. induction k as [|k IH]; intros H; cbn; [reflexivity|]. rewrite IH, H by (intros; auto with arith). reflexivity. Qed.
+
+Lemma psd_dec_ext n : forall M M', meq n n M M' -> psd_dec F n M = psd_dec F n M'.
+Proof. induction n as [|k IH]; intros M M' H; [reflexivity|]. cbn [psd_dec].
+  rewrite (H k k) by lia.
+  rewrite (allzero_ext k (fun i => M i k) (fun i => M' i k)) by (intros i Hi; apply H; lia).
+  rewrite (IH M M') by (intros i j Hi Hj; apply H; lia).
+  rewrite (IH (schur F k M) (schur F k M')); [reflexivity|].
+  intros i j Hi Hj. unfold schur. rewrite !H by lia. reflexivity. Qed.
+
+Fixpoint psd_dec_fast (n : nat) (M : mat) : bool :=
+  match n with
+  | O => true
+  | S k => let a := M k k in
+      if negb (kleb F (c0 F) a) then false
+      else if kleb F a (c0 F) then allzero F k (fun i => M i k) && psd_dec_fast k M
+      else psd_dec_fast k (frz k (schur F k M))
+  end.
+
+Lemma psd_dec_fast_eq n : forall M, psd_dec_fast n M = psd_dec F n M.
+Proof. induction n as [|k IH]; intros M; [reflexivity|]. cbn [psd_dec_fast psd_dec].
+  rewrite !IH. rewrite (psd_dec_ext k (frz k (schur F k M)) (schur F k M)); [reflexivity|].
+  intros i j Hi Hj. now apply frz_spec. Qed.
+End PsdFast.
